@@ -24,6 +24,7 @@ from .model import AnalysisError, node_src
 
 ORD, ASYNC = "ORD", "ASYNC"
 MAX_STATES = 60000
+NOVALUE = object()  # subscript_load: the lookup surely raises
 
 
 class _Top:
@@ -1146,9 +1147,11 @@ class Interp:
         out = []
         for (ov, iv), s in oks:
             v, may = self.dom.subscript_load(ov, iv, e, s)
-            out.append((v, s))
+            if v is not NOVALUE:
+                out.append((v, s))
             if may:
-                excs.append((Exc(ORD, "LookupError", e.lineno), s))
+                # may = True: a lookup that can fail; may = "KeyError"/"IndexError" with NOVALUE: one that surely fails
+                excs.append((Exc(ORD, may if isinstance(may, str) else "LookupError", e.lineno), s))
         return out, excs
 
     def e_Starred(self, e, state, ctx):
@@ -1318,6 +1321,7 @@ class Interp:
             for s in cur:
                 oks, ex = self.ev(g.iter, s, ctx)
                 excs += ex
+                g._itval = oks[0][0] if len(oks) == 1 and len(cur) == 1 else None  # for exact-collection domains
                 for itv, s1 in oks:
                     cands = self.dom.for_next(g, itv, s1)
                     if not cands:
@@ -1345,19 +1349,23 @@ class Interp:
                 results.append((vals, s1))
         # the comprehension's own scope: effects on state other than exceptions are those of dom
         out = []
-        vals_all = tuple(v for v, s in results)
-        st_out = {}
-        for vals, s in results:
-            st_out.setdefault(s, []).append(vals)
-        if not st_out:
-            st_out = {s: [] for s in dropped} or {state: []}
-        for s, vs in st_out.items():
+
+        def clean(s):
             # comprehension variables do not leak: restore them from the outer state
             s_clean = s
             for g in e.generators:
                 for n in ast.walk(g.target):
                     if isinstance(n, ast.Name):
                         s_clean = self.dom.name_store(n.id, state.get(n.id, TOP), s_clean, n) if isinstance(state, Env) and state.has(n.id) else (self.dom.name_del(n.id, s_clean) if isinstance(s_clean, Env) else s_clean)
+            return s_clean
+
+        st_out = {}
+        for vals, s in results:
+            st_out.setdefault(clean(s), []).append(vals)
+        if not st_out:
+            st_out = {clean(s): [] for s in dropped} or {state: []}
+        self.dom.comp_exact = len(st_out) == 1
+        for s_clean, vs in st_out.items():
             out.append((self.dom.comprehension(e, vs, s_clean), s_clean))
         return out, excs
 
